@@ -18,6 +18,15 @@ pub struct OracleState {
     pub refs_computed: u64,
     pub refs_memo_hits: u64,
     pub sentinel: Option<i64>,
+    /// C10: everything the seam has seen the simulated code do to the file system / network
+    pub fs_log: Vec<String>,
+    /// C07: per logical dictionary ("user|<path>" or "file|<uri>|<path>"), the words the client
+    /// asked to add to it (word, request id)
+    pub dict_model: BTreeMap<String, Vec<(String, i64)>>,
+    /// C19: per stats path, the record kinds that must be in the file (in order)
+    pub stats_model: BTreeMap<String, Vec<String>>,
+    /// C19: record commands of the current server lifetime (request id, kind JSON)
+    pub stats_pending: Vec<(i64, String)>,
 }
 
 pub fn panic_property(job_prop: &str) -> String {
@@ -71,7 +80,7 @@ pub fn file_dict_path(s: &Settings, doc_path: &str) -> String {
 
 /// Read a dictionary file the way the format is defined: one word per line.
 pub fn read_words(path: &str) -> Option<Vec<String>> {
-    let bytes = std::fs::read(path).ok()?;
+    let bytes = crate::seam::as_harness(|| std::fs::read(path)).ok()?;
     let s = String::from_utf8_lossy(&bytes).to_string();
     Some(s.lines().map(|l| l.to_string()).collect())
 }
@@ -97,8 +106,46 @@ fn ref_diags(sim: &mut Sim, text: &str, lang: &str, settings: &Settings, user: &
     out
 }
 
+/// The words of a dictionary according to the client model (C07): every word whose add
+/// command has been acknowledged.
+fn dict_key(path: &str, uri: Option<&str>) -> String {
+    match uri {
+        None => format!("user|{path}"),
+        Some(u) => format!("file|{u}|{path}"),
+    }
+}
+fn key_path(key: &str) -> &str {
+    key.rsplit('|').next().unwrap_or("")
+}
+
+fn model_words_at(sim: &Sim, path: &str, uri: Option<&str>) -> Vec<String> {
+    // acknowledged words, plus un-acknowledged ones (the process died before answering) that did
+    // reach the file: an in-flight add may or may not have landed, either is allowed
+    let on_disk = read_words(path).unwrap_or_default();
+    let mut v: Vec<String> = sim
+        .oracle_state
+        .dict_model
+        .get(&dict_key(path, uri))
+        .map(|ws| {
+            ws.iter()
+                .filter(|(w, id)| sim.client.added.iter().any(|a| a.req_id == *id && (a.acked || on_disk.contains(w))))
+                .map(|(w, _)| w.clone())
+                .collect()
+        })
+        .unwrap_or_default();
+    v.sort();
+    v.dedup();
+    v
+}
+
 fn current_words(sim: &Sim, doc: &Doc) -> (Vec<String>, Vec<String>) {
     let s = &sim.client.settings;
+    if sim.job.prop == "C07" {
+        // "current dictionaries" = what the user added, not what happens to be on disk
+        let user = model_words_at(sim, &user_dict_path(s), None);
+        let file = if doc.uri.starts_with("file:") { model_words_at(sim, &file_dict_path(s, &doc.path), Some(&doc.uri)) } else { vec![] };
+        return (user, file);
+    }
     let user = read_words(&user_dict_path(s)).unwrap_or_default();
     let file = if doc.uri.starts_with("file:") { read_words(&file_dict_path(s, &doc.path)).unwrap_or_default() } else { vec![] };
     (user, file)
@@ -143,6 +190,7 @@ fn diag_view(d: &[Diag]) -> Value {
 // ------------------------------------------------------------------ C09: the last word
 
 fn check_last_word(sim: &mut Sim, final_: bool) {
+    let prop = sim.job.prop.clone();
     let docs: Vec<Doc> = sim.client.docs.clone();
     let settings = sim.client.settings.clone();
     for doc in &docs {
@@ -150,8 +198,8 @@ fn check_last_word(sim: &mut Sim, final_: bool) {
         if !doc.open {
             if !observed_raw.is_empty() {
                 sim.res.violate(Violation {
-                    property: "C09".into(),
-                    oracle: "C09.closed_is_empty".into(),
+                    property: prop.clone(),
+                    oracle: format!("{prop}.closed_is_empty"),
                     class: "closed_not_empty".into(),
                     detail: format!("{} is closed/deleted but its last published diagnostics are {}", doc.uri, diag_view(&observed_raw)),
                     facts: json!({"lang": doc.lang, "final": final_}),
@@ -236,6 +284,49 @@ fn check_last_word(sim: &mut Sim, final_: bool) {
                 }
             }
         }
+        if class == "other" && prop != "C07" {
+            // the file on disk that holds this document's dictionary was changed through a command
+            // that named *another* document (file-dictionary name collision)
+            let my_path = file_dict_path(&settings, &doc.path);
+            let foreign: Vec<String> = sim
+                .client
+                .added
+                .iter()
+                .filter(|a| {
+                    a.file.as_deref().map(|u| u != doc.uri).unwrap_or(false)
+                        && a.file.as_deref().and_then(|u| sim.client.doc(u)).map(|d| file_dict_path(&settings, &d.path) == my_path).unwrap_or(false)
+                })
+                .map(|a| a.word.clone())
+                .collect();
+            if !foreign.is_empty() {
+                let f2: Vec<String> = file.iter().filter(|w| !foreign.contains(w)).cloned().collect();
+                let r = ref_diags(sim, &doc.text, &doc.lang, &settings, &user, &f2).unwrap_or_default();
+                if strip_ignorable(sim, doc, &r) == observed {
+                    class = "file_dict_name_collision".into();
+                    why = format!("they are the diagnostics from before words were added, through a command naming another file, to the dictionary file {my_path} that both files share");
+                }
+            }
+        }
+        if class == "other" && prop == "C07" {
+            // words of another document's file dictionary that is stored under the same file name
+            let my_path = file_dict_path(&settings, &doc.path);
+            let foreign: Vec<String> = sim
+                .oracle_state
+                .dict_model
+                .iter()
+                .filter(|(k, _)| k.starts_with("file|") && key_path(k) == my_path && !k.starts_with(&format!("file|{}|", doc.uri)))
+                .flat_map(|(_, ws)| ws.iter().map(|(w, _)| w.clone()))
+                .collect();
+            if !foreign.is_empty() {
+                let mut f2 = file.clone();
+                f2.extend(foreign);
+                let r = ref_diags(sim, &doc.text, &doc.lang, &settings, &user, &f2).unwrap_or_default();
+                if strip_ignorable(sim, doc, &r) == observed {
+                    class = "file_dict_name_collision".into();
+                    why = format!("they are the diagnostics under this file's dictionary plus the words added to another file's dictionary, both of which are stored as {my_path}");
+                }
+            }
+        }
         if class == "other" && observed.is_empty() && sim.client.last_publish(&doc.uri).is_none() {
             class = "never_published".into();
             why = "nothing was published for this open document in this server lifetime".into();
@@ -243,8 +334,8 @@ fn check_last_word(sim: &mut Sim, final_: bool) {
         let missing: Vec<&Diag> = expected.iter().filter(|d| !observed.contains(d)).collect();
         let extra: Vec<&Diag> = observed.iter().filter(|d| !expected.contains(d)).collect();
         sim.res.violate(Violation {
-            property: "C09".into(),
-            oracle: "C09.last_word".into(),
+            property: prop.clone(),
+            oracle: if prop == "C07" { "C07.added_words_accepted_everything_else_unchanged".into() } else { format!("{prop}.last_word") },
             class: class.clone(),
             detail: format!(
                 "{} ({}): the last published diagnostics differ from those of the newest text under the current dictionaries and configuration{}. missing={} unexpected={} policy={:?}",
@@ -260,20 +351,383 @@ fn check_last_word(sim: &mut Sim, final_: bool) {
     }
 }
 
+// ------------------------------------------------------------------ C10: the closed world
+
+fn norm(p: &str) -> String {
+    let mut out = String::new();
+    let mut prev = false;
+    for c in p.chars() {
+        if c == '/' {
+            if !prev {
+                out.push(c);
+            }
+            prev = true;
+        } else {
+            out.push(c);
+            prev = false;
+        }
+    }
+    if out.len() > 1 && out.ends_with('/') {
+        out.pop();
+    }
+    out
+}
+
+fn parent(p: &str) -> String {
+    match p.rfind('/') {
+        Some(0) => "/".into(),
+        Some(i) => p[..i].to_string(),
+        None => String::new(),
+    }
+}
+
+fn all_settings(sim: &Sim) -> Vec<Settings> {
+    let mut v = sim.client.settings_history.clone();
+    v.push(sim.client.settings.clone());
+    v.push(Settings::default());
+    v
+}
+
+/// May the language server create or modify `path`?
+fn write_allowed(sim: &Sim, path: &str) -> bool {
+    let p = norm(path);
+    for s in all_settings(sim) {
+        let (u, f, st) = (norm(&user_dict_path(&s)), norm(&file_dict_dir(&s)), norm(&stats_path(&s)));
+        if p == u || p == st || parent(&p) == f {
+            return true;
+        }
+        // directories leading to a configured file
+        for target in [parent(&u), f.clone(), parent(&st)] {
+            if target == p || target.starts_with(&format!("{p}/")) {
+                return true;
+            }
+        }
+    }
+    false
+}
+
+fn collect_seam_log(sim: &mut Sim) {
+    let (lines, overflow) = crate::seam::take_log();
+    if overflow {
+        sim.res.harness("seam log overflow");
+    }
+    sim.oracle_state.fs_log.extend(lines);
+}
+
+fn check_closed_world(sim: &mut Sim, final_: bool) {
+    collect_seam_log(sim);
+    let log = sim.oracle_state.fs_log.clone();
+    // a temporary file that is renamed onto an allowed file counts as that file
+    let mut renamed_ok: Vec<String> = vec![];
+    for l in &log {
+        if let Some(r) = l.strip_prefix("MV ") {
+            if let Some((from, to)) = r.split_once('\t') {
+                if write_allowed(sim, to) && parent(&norm(from)) == parent(&norm(to)) {
+                    renamed_ok.push(norm(from));
+                }
+            }
+        }
+    }
+    let mut bad: Vec<String> = vec![];
+    for l in &log {
+        if l.starts_with("NET ") {
+            bad.push(l.clone());
+            continue;
+        }
+        let path = if let Some(p) = l.strip_prefix("W ") {
+            p.to_string()
+        } else if let Some(p) = l.strip_prefix("MK ") {
+            p.to_string()
+        } else if let Some(p) = l.strip_prefix("RM ") {
+            p.to_string()
+        } else if let Some(r) = l.strip_prefix("MV ") {
+            r.split_once('\t').map(|x| x.1.to_string()).unwrap_or_default()
+        } else {
+            continue;
+        };
+        if !write_allowed(sim, &path) && !(final_ && renamed_ok.contains(&norm(&path))) && !(!final_ && renamed_ok.contains(&norm(&path))) {
+            // a temp file not (yet) renamed: only an error once the command has finished, i.e. at quiescence — which is now
+            bad.push(l.clone());
+        }
+    }
+    sim.res.count("c10_fs_events_checked", log.len() as u64);
+    sim.res.count("c10_writes_seen", log.iter().filter(|l| l.starts_with("W ")).count() as u64);
+    sim.oracle_state.fs_log.clear();
+    if !bad.is_empty() {
+        bad.sort();
+        bad.dedup();
+        let net = bad.iter().any(|b| b.starts_with("NET "));
+        sim.res.violate(Violation {
+            property: "C10".into(),
+            oracle: if net { "C10.no_network".into() } else { "C10.writes_confined".into() },
+            class: if net { "network_call".into() } else { "write_outside_configured".into() },
+            detail: format!(
+                "the language server {}: {:?} (configured: user dictionary {}, file dictionaries in {}, statistics {})",
+                if net { "made a network call" } else { "created or modified a path outside the configured dictionary/statistics files" },
+                bad.iter().take(6).collect::<Vec<_>>(),
+                user_dict_path(&sim.client.settings),
+                file_dict_dir(&sim.client.settings),
+                stats_path(&sim.client.settings)
+            ),
+            facts: json!({"events": bad.iter().take(6).map(|b| b.split(' ').next().unwrap_or("").to_string()).collect::<Vec<_>>()}),
+        });
+    }
+    if final_ {
+        // snapshot of the whole world: every file must be a document the editor wrote
+        // (unmodified) or an allowed file
+        let mut files = vec![];
+        crate::seam::as_harness(|| walk(std::path::Path::new("w"), &mut files));
+        let mut stray = vec![];
+        for f in files {
+            let abs = format!("{}/{}", WORLD, f.strip_prefix("w/").unwrap_or(&f));
+            if let Some(d) = sim.client.docs.iter().find(|d| d.path == abs) {
+                let on_disk = crate::seam::as_harness(|| std::fs::read_to_string(&f)).unwrap_or_default();
+                if d.disk.as_deref() != Some(on_disk.as_str()) {
+                    stray.push(format!("{abs} (document modified on disk)"));
+                }
+                continue;
+            }
+            if !write_allowed(sim, &abs) {
+                stray.push(abs);
+            }
+        }
+        sim.res.count("c10_snapshots", 1);
+        if !stray.is_empty() {
+            sim.res.violate(Violation {
+                property: "C10".into(),
+                oracle: "C10.snapshot".into(),
+                class: "stray_file".into(),
+                detail: format!("files exist after the session that are neither editor documents nor configured dictionary/statistics files: {stray:?}"),
+                facts: json!({"n": stray.len()}),
+            });
+        }
+    }
+}
+
+fn walk(dir: &std::path::Path, out: &mut Vec<String>) {
+    let Ok(rd) = std::fs::read_dir(dir) else { return };
+    let mut entries: Vec<_> = rd.flatten().collect();
+    entries.sort_by_key(|e| e.file_name());
+    for e in entries {
+        let p = e.path();
+        if p.is_dir() {
+            walk(&p, out);
+        } else {
+            out.push(p.to_string_lossy().to_string());
+        }
+    }
+}
+
+// ------------------------------------------------------------------ C07: dictionaries
+
+fn words_set(v: &[String]) -> std::collections::BTreeSet<String> {
+    v.iter().cloned().collect()
+}
+
+/// (d)/(e): every dictionary file reloads to acked ⊆ S ⊆ acked ∪ in-flight.
+fn check_dict_files(sim: &mut Sim, when: &str) {
+    let keys: Vec<String> = sim.oracle_state.dict_model.keys().cloned().collect();
+    for key in keys {
+        let path = key_path(&key).to_string();
+        let entries = sim.oracle_state.dict_model.get(&key).cloned().unwrap_or_default();
+        // words that were added to *another* document's dictionary which maps to the same file
+        let foreign: std::collections::BTreeSet<String> = sim
+            .oracle_state
+            .dict_model
+            .iter()
+            .filter(|(k, _)| **k != key && key_path(k) == path)
+            .flat_map(|(_, ws)| ws.iter().map(|(w, _)| w.clone()))
+            .collect();
+        let mut acked = std::collections::BTreeSet::new();
+        let mut inflight = std::collections::BTreeSet::new();
+        for (w, id) in &entries {
+            let a = sim.client.added.iter().find(|a| a.req_id == *id);
+            if a.map(|a| a.acked).unwrap_or(false) {
+                acked.insert(w.clone());
+            } else {
+                inflight.insert(w.clone());
+            }
+        }
+        let on_disk = read_words(&path);
+        let s = words_set(&on_disk.clone().unwrap_or_default());
+        let lost: Vec<&String> = acked.iter().filter(|w| !s.contains(*w)).collect();
+        let alien: Vec<&String> = s.iter().filter(|w| !acked.contains(*w) && !inflight.contains(*w)).collect();
+        sim.res.count("dict_files_checked", 1);
+        if !acked.is_empty() {
+            sim.res.count("dict_files_checked_nonempty", 1);
+        }
+        if lost.is_empty() && alien.is_empty() {
+            continue;
+        }
+        // classify
+        let lower = |w: &str| w.to_lowercase().replace('’', "'");
+        let case_variant = !lost.is_empty() && alien.is_empty() && lost.iter().all(|l| s.iter().any(|k| k != *l && lower(k) == lower(l)));
+        let fragment = alien.iter().any(|a| acked.iter().chain(inflight.iter()).any(|w| w != *a && w.starts_with(a.as_str())));
+        let collision = !alien.is_empty() && alien.iter().all(|a| foreign.contains(*a)) && lost.is_empty();
+        let class = if collision {
+            "file_dict_name_collision"
+        } else if case_variant {
+            "case_variant_replaced"
+        } else if !lost.is_empty() && when.starts_with("after crash") {
+            "lost_by_crash"
+        } else if fragment {
+            "word_fragment"
+        } else if !lost.is_empty() {
+            "word_lost"
+        } else {
+            "alien_word"
+        };
+        sim.res.violate(Violation {
+            property: "C07".into(),
+            oracle: "C07.file_reloads_to_added_set".into(),
+            class: class.into(),
+            detail: format!(
+                "{when}: dictionary file {path} {}reloads to {:?}; acknowledged words {:?}, in flight {:?}; lost {:?}, never added {:?}",
+                if on_disk.is_none() { "(missing) " } else { "" },
+                s,
+                acked,
+                inflight,
+                lost,
+                alien
+            ),
+            facts: json!({"when": when.split(' ').take(2).collect::<Vec<_>>().join(" "), "class": class}),
+        });
+    }
+}
+
+// ------------------------------------------------------------------ C19 through the server
+
+fn check_stats_files(sim: &mut Sim) {
+    use harper_stats::{RecordKind, Stats};
+    let paths: Vec<String> = sim.oracle_state.stats_model.keys().cloned().collect();
+    for path in paths {
+        let want = sim.oracle_state.stats_model.get(&path).cloned().unwrap_or_default();
+        let bytes = crate::seam::as_harness(|| std::fs::read(&path)).unwrap_or_default();
+        let got = Stats::read(&mut &bytes[..]);
+        sim.res.count("stats_files_checked", 1);
+        if !want.is_empty() {
+            sim.res.count("stats_files_checked_nonempty", 1);
+        }
+        let fail = |sim: &mut Sim, class: &str, detail: String| {
+            sim.res.violate(Violation {
+                property: "C19".into(),
+                oracle: "C19.server_log_reads_back".into(),
+                class: class.into(),
+                detail: format!("statistics file {path}: {detail}"),
+                facts: json!({"through": "harper-ls"}),
+            });
+        };
+        match got {
+            Err(e) => fail(sim, "read_error", format!("Stats::read failed: {e}; {} bytes", bytes.len())),
+            Ok(st) => {
+                let want_kinds: Vec<Option<RecordKind>> = want.iter().map(|k| serde_json::from_str(k).ok()).collect();
+                if st.records.len() != want_kinds.len() {
+                    fail(sim, "record_count", format!("{} records in the file, {} recorded and saved by orderly shutdowns", st.records.len(), want_kinds.len()));
+                } else {
+                    for (i, (r, w)) in st.records.iter().zip(want_kinds.iter()).enumerate() {
+                        if Some(&r.kind) != w.as_ref() {
+                            fail(sim, "record_differs", format!("record {i} differs from what was recorded"));
+                            break;
+                        }
+                        if r.when < crate::seam::EPOCH_SECS || r.when > crate::seam::EPOCH_SECS + 100_000 {
+                            fail(sim, "record_time", format!("record {i} has time {} outside the simulated clock's range", r.when));
+                            break;
+                        }
+                    }
+                }
+            }
+        }
+    }
+}
+
 // ------------------------------------------------------------------ hooks called by the simulator
 
-pub fn on_spawn(_sim: &mut Sim) {}
+pub fn on_spawn(sim: &mut Sim) {
+    sim.oracle_state.stats_pending.clear();
+}
+
 pub fn before_kill(_sim: &mut Sim) {}
-pub fn after_kill(_sim: &mut Sim) {}
-pub fn on_send(_sim: &mut Sim, _json: &Value) {}
+
+pub fn after_kill(sim: &mut Sim) {
+    if sim.job.prop == "C07" {
+        check_dict_files(sim, "after crash");
+    }
+}
+
+pub fn on_send(sim: &mut Sim, json: &Value) {
+    if json["method"].as_str() == Some("workspace/executeCommand") {
+        let id = json["id"].as_i64().unwrap_or(-1);
+        let args = json["params"]["arguments"].as_array().cloned().unwrap_or_default();
+        let s = sim.client.settings.clone();
+        match json["params"]["command"].as_str().unwrap_or("") {
+            "HarperAddToUserDict" => {
+                if let Some(w) = args.first().and_then(|a| a.as_str()) {
+                    sim.oracle_state.dict_model.entry(dict_key(&user_dict_path(&s), None)).or_default().push((w.to_string(), id));
+                }
+            }
+            "HarperAddToFileDict" => {
+                if let (Some(w), Some(u)) = (args.first().and_then(|a| a.as_str()), args.get(1).and_then(|a| a.as_str())) {
+                    if let Some(d) = sim.client.doc(u) {
+                        let p = file_dict_path(&s, &d.path);
+                        let key = dict_key(&p, Some(&d.uri));
+                        sim.oracle_state.dict_model.entry(key).or_default().push((w.to_string(), id));
+                    }
+                }
+            }
+            "HarperRecordLint" => {
+                if let Some(k) = args.first().and_then(|a| a.as_str()) {
+                    sim.oracle_state.stats_pending.push((id, k.to_string()));
+                }
+            }
+            _ => {}
+        }
+    }
+    if json["method"].as_str() == Some("shutdown") {
+        // records acknowledged before the shutdown request are saved by it
+        let s = sim.client.settings.clone();
+        let acked: Vec<String> = sim
+            .oracle_state
+            .stats_pending
+            .iter()
+            .filter(|(id, _)| !sim.client.pending.contains_key(id) || false)
+            .map(|(_, k)| k.clone())
+            .collect();
+        // only well-formed kinds are recorded by the server
+        let acked: Vec<String> = acked.into_iter().filter(|k| serde_json::from_str::<harper_stats::RecordKind>(k).is_ok()).collect();
+        if !acked.is_empty() {
+            sim.res.count("stats_saved", 1);
+        }
+        sim.oracle_state.stats_model.entry(stats_path(&s)).or_default().extend(acked);
+        sim.oracle_state.stats_pending.clear();
+    }
+}
+
 pub fn on_receive(_sim: &mut Sim, _msg: &Value) {}
 
 pub fn at_quiescence(sim: &mut Sim, final_: bool) {
+    // oracles over files do not need a live server
+    match sim.job.prop.as_str() {
+        "C10" => {
+            check_closed_world(sim, final_);
+            return;
+        }
+        "C19" => {
+            if final_ {
+                check_stats_files(sim);
+            }
+            return;
+        }
+        _ => {}
+    }
     if !sim.server_alive_pub() || !sim.client.initialized {
         return;
     }
     match sim.job.prop.as_str() {
         "C09" => check_last_word(sim, final_),
+        "C07" => {
+            check_last_word(sim, final_);
+            check_dict_files(sim, if final_ { "at the end" } else { "at a quiescent point" });
+        }
         _ => {}
     }
 }
